@@ -154,6 +154,34 @@ fn check_views_inner(what: &str, b: &BMOC) -> Result<Vec<MCell>, Violation> {
       }
     }
   }
+  if ds_model > 2_000_000 && ds_model <= usize::MAX as u128 {
+    // too many leaves to expand: the first 20 000 items of the two flat iterators and their size_hint
+    // (entries with a large depth difference: the shifts of next_cell)
+    let mut it = b.flat_iter();
+    let mut itc = b.flat_iter_cell();
+    let mut k = 0usize;
+    'outer: for (c, r) in cells.iter().zip(raw.iter()) {
+      let (s, e) = mb::leaf_range(dm, c);
+      for h in s..e {
+        if k >= 20_000 {
+          break 'outer;
+        }
+        let got = it.next();
+        if got != Some(h) {
+          return Err(Violation::new("views", "flat_iter", format!("{}: flat_iter() yields {:?} at position {}, expected {}", what, got, k, h)));
+        }
+        match itc.next() {
+          Some(x) if x.hash == h && x.depth == dm && x.is_full == c.full && x.raw_value == *r => {}
+          other => return Err(Violation::new("views", "flat_iter_cell", format!("{}: flat_iter_cell() yields {:?} at position {}, expected cell {} of depth {} flag {} raw {}", what, other, k, h, dm, c.full, r))),
+        }
+        k += 1;
+      }
+    }
+    let rem = ds - k;
+    if it.size_hint() != (rem, Some(rem)) || itc.size_hint() != (rem, Some(rem)) {
+      return Err(Violation::new("views", "size_hint", format!("{}: after {} items size_hint is {:?} / {:?}, expected {}", what, k, it.size_hint(), itc.size_hint(), rem)));
+    }
+  }
   Ok(cells)
 }
 
@@ -173,8 +201,18 @@ fn produce(p: &Producer) -> Result<Option<BMOC>, String> {
     }),
     Producer::Unsafe { spec, mode, new_depth } => catch(|| {
       let mut b = BMOCBuilderUnsafe::new(spec.depth_max, spec.cells.len().max(1));
-      for &(d, h, f) in &spec.cells {
-        b.push(d, h, f);
+      if *mode == 3 {
+        // really unordered input for to_bmoc_from_unordered: odd positions first, then the even ones backwards
+        for &(d, h, f) in spec.cells.iter().skip(1).step_by(2) {
+          b.push(d, h, f);
+        }
+        for &(d, h, f) in spec.cells.iter().step_by(2).rev() {
+          b.push(d, h, f);
+        }
+      } else {
+        for &(d, h, f) in &spec.cells {
+          b.push(d, h, f);
+        }
       }
       Some(match mode {
         0 => b.to_bmoc(),
@@ -295,8 +333,31 @@ fn producer() -> BoxedStrategy<Producer> {
       Producer::Fixed { depth, full, capacity, pushes }
     })
   });
-  let uns = (prop_oneof![4 => 0u8..=7, 1 => prop::sample::select(vec![12u8, 20, 29])], any::<bool>(), 0u8..4, 0u8..=7).prop_flat_map(|(dm, mixed, mode, nd)| bc::random_spec(dm, mixed).prop_map(move |spec| Producer::Unsafe { spec, mode, new_depth: nd }));
-  prop_oneof![3 => cone, 2 => ell, 2 => poly, 2 => fixed, 3 => uns].boxed()
+  let uns = (prop_oneof![4 => 0u8..=7, 1 => prop::sample::select(vec![12u8, 20, 29])], any::<bool>(), 0u8..4, 0u8..=7, 0u8..4).prop_flat_map(|(dm, mixed, mode, nd, rel)| {
+    // lowering by 1..3 levels as well as down to a shallow depth
+    let nd = if rel > 0 && dm > rel { dm - rel } else { nd };
+    bc::random_spec(dm, mixed).prop_map(move |spec| Producer::Unsafe { spec, mode, new_depth: nd })
+  });
+  // deep coverages: a cone / ellipse of a few cells at depth 20..=29 (the branch without recursion), a deep fixed-depth builder
+  let deep_cone = (20u8..=29, prop_oneof![3 => Just(0u8), 1 => 1u8..=2], pos(), 0.2f64..3.0)
+    .prop_map(|(dd, delta, p, f)| Producer::Cone { depth: dd - delta, delta, lon: p.lon, lat: p.lat, radius: f * 1.0 / (1u64 << dd) as f64 });
+  let deep_ell = (20u8..=29, prop_oneof![3 => Just(0u8), 1 => 1u8..=2], pos(), 0.2f64..3.0, 0.05f64..=1.0, 0.0f64..PI)
+    .prop_map(|(dd, delta, p, f, fr, pa)| { let a = f * 1.0 / (1u64 << dd) as f64; Producer::Ellipse { depth: dd - delta, delta, lon: p.lon, lat: p.lat, a, b: a * fr, pa } });
+  let deep_fixed = (8u8..=29, any::<bool>(), prop::sample::select(vec![2usize, 5, 1000])).prop_flat_map(|(depth, full, capacity)| {
+    let n = 12u64 << (2 * depth as u32);
+    prop::collection::vec((0u64..n, 1u64..40), 0..6).prop_map(move |runs| {
+      let mut pushes = vec![];
+      for (s, l) in runs {
+        // aligned starts now and then, so that the builder packs
+        let s = if l % 3 == 0 { s & !0xFF } else { s };
+        for h in s..(s + l).min(n) {
+          pushes.push(h);
+        }
+      }
+      Producer::Fixed { depth, full, capacity, pushes }
+    })
+  });
+  prop_oneof![6 => cone, 4 => ell, 4 => poly, 4 => fixed, 6 => uns, 1 => deep_cone, 1 => deep_ell, 1 => deep_fixed].boxed()
 }
 
 fn strat() -> BoxedStrategy<History> {
